@@ -20,3 +20,19 @@ package gemmill
 //@   atcall SaveBlock set gSaved = arg_block
 //@   atcall ApplyBlock assert [apply-the-stored-block-to-the-live-state] gSaved == blk && arg_block == blk && arg_s == stateM && calls(SaveBlock) == 1
 //@   atcall Save assert [state-saved-only-after-apply-succeeded] calls(ApplyBlock) == 1 && arg_s == stateM
+
+// certificate-authority admission: a peer is admitted if it is a current validator (and validators need no
+// certificate), or a CA validator OF THE CURRENT SET signed its key
+//@ ghost gIsVal Bool
+//@ ghost gNonValAuth Bool
+//@ ghost gCaSigOK Bool
+//@ func authByCA$1
+//@   props C20
+//@   requires ppValidators != nil && wfValSet(*ppValidators) && peerNodeInfo != nil && peerNodeInfo.PubKey != nil && conf != nil
+//@   atcall HasAddress assert [authorities-are-the-current-validators] arg_valSet == *ppValidators
+//@   atcall HasAddress set gIsVal = result
+//@   atcall GetBool set gNonValAuth = result
+//@   atcall VerifyBytes assert [certificate-signer-is-a-ca-validator-of-the-current-set] val != nil && val.IsCA && val == valset.Validators[rangeindex] && valset == *ppValidators
+//@   atcall VerifyBytes set gCaSigOK = result
+//@   ensures  [admitted-only-validator-or-ca-signed] result == nil ==> (gIsVal && !gNonValAuth) || gCaSigOK
+//@   loop 0 invariant 0 <= $i && valset == *ppValidators && wfValSet(valset)
